@@ -63,8 +63,10 @@ def run(ctx):
     out = ctx.run_impl("c06", [dict(id=k, calls=parts[k]) for k in range(shards)], nproc=shards, timeout_s=3000)
     traces = []
     for k in range(shards):
-        if out[k].get("st") == "crashed":
-            raise core.Machinery("C06 driver crashed")
+        if out[k].get("st") in ("crashed", "timeout"):
+            ctx.violation("M2", "a call made by the driver %s" % ("did not terminate" if out[k]["st"] == "timeout" else "crashed the interpreter"),
+                          dict(mode="shard", shard=k), cls=out[k]["st"])
+            out[k] = {"events": [], "hists": []}
         t = out[k]["events"]
         for e in t:
             e.pop("msg", None)
